@@ -9,6 +9,7 @@ for cf in sorted(glob.glob('/var/tmp/confirm/*.json')):
     c = json.load(open(cf))
     p, k = os.path.basename(cf)[:-5].split('_')
     src = '/tmp/seed/%s-out/%s' % (p, k)
+    prop = p[:-1] if p.endswith('b') else p   # second-round seeds are named <property>b
     if not c.get('confirmed') or not os.path.isdir(src):
         continue
     dst = os.path.join(ROOT, 'seeded', '%s_%s' % (p, k))
@@ -27,7 +28,8 @@ for cf in sorted(glob.glob('/var/tmp/confirm/*.json')):
             except Exception:
                 pass
     meta = {
-        'property': p,
+        'property': prop,
+        'round': 2 if p.endswith('b') else 1,
         'origin': 'written by an independent sub-agent that saw only the property text and a scratch worktree of kaj/rsass (nothing from /verif)',
         'files_changed': files,
         'needs_to_manifest': (re.search(r'(?is)(needs?[^\n]*\n(?:[^\n]+\n){0,4})', notes) or [None, ''])[1].strip()[:600],
@@ -39,13 +41,13 @@ for cf in sorted(glob.glob('/var/tmp/confirm/*.json')):
             'demo_exit_with_change': c.get('demo_changed_rc'),
         },
         'check_result': None if det is None else {
-            'command': 'tools/try_seed.py seeded/%s_%s %s' % (p, k, p),
+            'command': 'tools/try_seed.py seeded/%s_%s %s' % (p, k, prop),
             'exit': det['exit'], 'detected': det['detected'], 'failed_obligations': det['failed_obligations'][:8],
             'note': (det.get('tail') or '')[-300:] if det['exit'] == 2 else '',
         },
     }
     json.dump(meta, open(os.path.join(dst, 'meta.json'), 'w'), indent=1)
-    out.append(dict(seed='%s_%s' % (p, k), property=p, files=files, detected=None if det is None else det['detected'],
+    out.append(dict(seed='%s_%s' % (p, k), property=prop, files=files, detected=None if det is None else det['detected'],
                     exit=None if det is None else det['exit'],
                     obligations=[] if det is None else det['failed_obligations'][:4]))
 json.dump(out, open(os.path.join(ROOT, 'seeded', 'detection.json'), 'w'), indent=1)
